@@ -66,11 +66,25 @@ pub fn run_clone(cfg: &Cfg, kt: KeyType, ops: &[Op], clone_at: usize, fork_at: u
     }
     cb_take();
     let sa = a.snapshot(false);
-    // either `clone()`, or `clone_from` onto an existing cache of the same configuration that
-    // already holds entries (sometimes exactly as many as the source)
+    // either `clone()`, or `clone_from` onto an existing cache that already holds entries
+    // (sometimes exactly as many as the source) - of the same configuration, or of the same
+    // type with other sizes, sample size and doorkeeper false-positive ratio
     let via_clone_from = seeds[1] % 3 == 0;
     let mut b = if via_clone_from {
-        let mut t = match make_subject(cfg, kt) {
+        let mut tcfg = cfg.clone();
+        if seeds[3] % 2 == 0 {
+            tcfg.a += 1 + (seeds[3] >> 8) as usize % 3;
+            if matches!(kind, Kind::Slru | Kind::Wtlfu) {
+                tcfg.b += (seeds[3] >> 12) as usize % 3;
+            }
+            if kind == Kind::Wtlfu {
+                tcfg.c += (seeds[3] >> 16) as usize % 2;
+                tcfg.samples += 1 + (seeds[3] >> 20) as usize % 40;
+                tcfg.gr = [0.3, 0.001, 0.9, 0.05][(seeds[3] >> 28) as usize % 4];
+            }
+            cov.must.bump("clone_from-other-configuration");
+        }
+        let mut t = match make_subject(&tcfg, kt) {
             Ok(t) => t,
             Err(_) => return None,
         };
@@ -443,9 +457,17 @@ pub fn trace(cfg: &Cfg, kt: KeyType, ops: &[Op], seeds: [u64; 4], clone_swap_at:
             Res::Panic(_) => "PANIC".to_string(),
             other => other.to_string(),
         };
-        let state = match sub.snapshot(false) {
-            Ok(s) => format!("{} caps={:?} est={}", s.describe(kind), s.caps, s.est.as_ref().map(|e| e.w as i64).unwrap_or(-1)),
-            Err(e) => format!("<audit: {}>", e),
+        // histories of thousands of steps over thousands of entries: results and callbacks are
+        // compared at every step, the full state at every 97th step, around every bulk
+        // operation and over the last 30 steps
+        let sparse = ops.len() > 500 && !(i % 97 == 0 || i + 30 >= ops.len() || matches!(op, Op::Resize(_) | Op::Purge) || matches!(ops.get(i.wrapping_sub(1)), Some(Op::Resize(_))));
+        let state = if sparse {
+            String::new()
+        } else {
+            match sub.snapshot(false) {
+                Ok(s) => format!("{} caps={:?} est={}", s.describe(kind), s.caps, s.est.as_ref().map(|e| e.w as i64).unwrap_or(-1)),
+                Err(e) => format!("<audit: {}>", e),
+            }
         };
         out.push(TraceStep { res, cb, state });
         if panicked {
@@ -538,8 +560,17 @@ fn conversions_deterministic(out: &mut ShardOut, rng: &mut Rng) {
         v
     }
     for round in 0..40u32 {
-        let n = rng.range(2, 30) as usize;
+        // mostly small inputs; a few of a thousand pairs and more (native builds)
+        let large = round % 10 == 9 && !cfg!(miri);
+        let n = if large { [1100usize, 1500, 2100, 4200][(round / 10) as usize % 4] } else { rng.range(2, 30) as usize };
         let mut items: Vec<(u32, u32)> = (0..n as u32).map(|i| (rng.below(1000) as u32 * 7 + i, i)).collect();
+        if large && round % 20 == 9 {
+            // a fifth of the keys occur twice
+            for i in 0..n / 5 {
+                let d = items[rng.below(n as u64) as usize];
+                items.push((d.0, 100_000 + i as u32));
+            }
+        }
         if round % 3 == 0 {
             // repeated keys
             let d = items[0];
@@ -589,6 +620,20 @@ pub fn c17_suite(ctx: &Ctx) -> ShardOut {
     let mut rng = Rng::new(mix(ctx.seed, 0xC17) ^ ctx.shard.wrapping_mul(0x9E37));
     let deadline = Instant::now() + std::time::Duration::from_secs(ctx.max_secs);
     set_heapy(ctx.heapy);
+    // thousands of entries, single calls that evict more than a thousand (native builds)
+    if !cfg!(miri) && ctx.shard < 2 && ctx.variant != "valgrind" && ctx.variant != "asan" {
+        for &kind in &KINDS {
+            let (cfg, ops, _uni) = huge_history(kind, ctx.shard as usize, &mut rng);
+            let seeds = [rng.next(), rng.next(), rng.next(), rng.next()];
+            out.cov.histories += 1;
+            out.cov.must.bump("huge-history");
+            if let Some((rule, detail, step)) = run_c17(&cfg, KeyType::Tracked, &ops, seeds, &[], &mut out.cov) {
+                let cut = &ops[..(step + 1).min(ops.len())];
+                out.add(mk_found("C17", &rule, cfg.kind, detail, &cfg, KeyType::Tracked, cut, BTreeMap::new(), seeds, step));
+                return out;
+            }
+        }
+    }
     let mut first = true;
     while out.cov.steps < ctx.ops && Instant::now() < deadline {
         let kind = *rng.pick(&KINDS);
